@@ -29,7 +29,8 @@ MODULE = 'PyTough.Props.C03'
 TARGETS = ['PyTough.Props.C03', 'drv_c03']
 THEOREMS = ['Props.C03.' + t for t in [
     'tables_are_current', 'geo_roundtrip', 'reread_unique', 'header_preserved', 'nodes_preserved', 'columns_preserved',
-    'connections_preserved', 'layers_preserved', 'surfaces_preserved', 'wells_preserved', 'names_lists_preserved',
+    'connections_preserved', 'layers_preserved', 'surfaces_preserved', 'wells_preserved', 'well_names_preserved',
+    'names_lists_preserved', 'surface_crossing_characterised', 'names_lists_preserved_clear', 'surface_on_boundary_changes_names',
     'geo_write_fixpoint_partial', 'later_generations',
     'rounding_idempotent', 'feet_roundtrip', 'rjust_names_safe', 'left_justified_name_changes',
     'layer_centre_zero_lost', 'second_file_differs']]
@@ -409,10 +410,77 @@ def gen_recipe(rng, quick, index):
     return rc
 
 
+def build_custom(rc):
+    """the hand-made geometries of the WF-exclusion observations and of the witnesses"""
+    import numpy as np
+    m = mg()
+    kind = rc['custom']
+    with quiet():
+        if kind == 'nolayers':
+            return m.mulgrid()
+        if kind == 'wells':
+            g = m.mulgrid().rectangular([10.] * 2, [10.], [5.] * 2)
+            g.add_well(m.well('W1', [np.array([1., 2., 0.]), np.array([1., 2., -5.])]))
+            g.add_well(m.well('EMPTY', []))
+            return g
+        if kind == 'sliver':
+            g = m.mulgrid()
+            for nm, p in (('  a', [0., 0.004]), ('  b', [10., 0.0049]), ('  c', [20., 0.0051])):
+                g.add_node(m.node(nm, np.array(p)))
+            g.add_column(m.column('  a', [g.node['  a'], g.node['  c'], g.node['  b']]))
+            g.add_layers([1.])
+            g.set_default_surface()
+        elif kind == 'cross':
+            # Props/C03.lean gCross: a surface 0.004 above the bottom 0.0 of the first layer
+            g = m.mulgrid().rectangular([10.], [15.], [10., 10.], origin=[0., 0., 10.], atmos_type=0)
+            c = g.columnlist[0]
+            c.surface = 0.004
+            g.set_column_num_layers(c)
+        else:
+            raise ValueError(kind)
+        g.setup_block_name_index()
+        g.setup_block_connection_name_index()
+    return g
+
+
+def observations(ctx):
+    """the excluded points of WF (and the surface-crossing witness) run on the real code; notes + replays, no verdict"""
+    m = mg()
+    out = []
+    for kind, expect in (('nolayers', 'WF requires at least one layer'),
+                         ('wells', 'WF requires every well to have a track point; names of at most 5 characters come back right-justified (wells_preserved)'),
+                         ('sliver', 'WF requires that no rounded column polygon is clockwise'),
+                         ('cross', 'names_lists_preserved needs SurfaceClear: witness surface_on_boundary_changes_names')):
+        rc = {'custom': kind}
+        g = build_custom(rc)
+        f = str(ctx.tmp / ('obs_%s.dat' % kind))
+        try:
+            with quiet():
+                g.write(f)
+                g2 = m.mulgrid(f)
+            if kind == 'wells':
+                seen = 'wells %r re-read as %r' % ([(w.name, len(w.pos)) for w in g.welllist], [(w.name, len(w.pos)) for w in g2.welllist])
+            elif kind == 'sliver':
+                seen = 'column nodes %r (area %.4g) re-read as %r (area %.4g)' % ([n.name for n in g.columnlist[0].node], g.columnlist[0].area,
+                                                                                   [n.name for n in g2.columnlist[0].node], g2.columnlist[0].area)
+            elif kind == 'cross':
+                seen = 'block_name_list %r re-read as %r' % (list(g.block_name_list), list(g2.block_name_list))
+            else:
+                seen = 're-read without exception'
+        except Exception as e:
+            seen = 're-reading raises %s: %s' % (type(e).__name__, str(e)[:60])
+        p = core.write_replay(ID, {'property': ID, 'kind': 'observation', 'key': 'observation:' + kind, 'what': expect + ' -- real code: ' + seen,
+                                   'case': {'recipe': rc}})
+        out.append('WF exclusion / witness [%s] %s -- real code: %s (replay %s)' % (kind, expect, seen, p))
+    return out
+
+
 def build(rc):
     """recipe -> real mulgrid object (everything through the public API of the current tree)"""
     import random
     import numpy as np
+    if 'custom' in rc:
+        return build_custom(rc)
     m = mg()
     with quiet():
         if rc['base'] == 'rect':
@@ -745,6 +813,7 @@ def damage(rng, text):
 # ------------------------------------------------------------------ run
 
 CORPUS = [
+    {'custom': 'cross', 'base': 'custom', 'unit': ''},
     # the witness of the known finding (also proved in Props/C03.lean: centre_zero_witness)
     dict(base='rect', style='fixed', xs=[10.0, 20.5], ys=[15.0], zs=[2.006, 3.0], origin=[0.0, 0.0, 1.006], conv=0, justify='r', case=None,
          spaces=True, atm=0, block_order=None, unit='', perm_angle=None, atm_volume=None, atm_conn=None, surf=[0.0, 0], centres=[0.0, 0], wells=[0, 0, False]),
@@ -793,7 +862,7 @@ def recipe_key(rc):
 
 
 def classify(res, rc, g):
-    res.count('base:' + (rc['base'] if rc['base'] == 'rect' else rc['file'] + ('+' + rc['derive'][0] if rc.get('derive') else '')))
+    res.count('base:' + ('custom-' + rc['custom'] if 'custom' in rc else rc['base'] if rc['base'] == 'rect' else rc['file'] + ('+' + rc['derive'][0] if rc.get('derive') else '')))
     res.count('convention:%d' % g.convention)
     res.count('atmosphere_type:%d' % g.atmosphere_type)
     res.count('unit:%s' % ('feet' if g.unit_type else 'metres'))
@@ -870,6 +939,8 @@ def run(ctx, only_oracle=False, n=None, seed_shift=0):
         res = _run(ctx, only_oracle, n, seed_shift)
     finally:
         if cov is not None: cov.stop()
+    if not only_oracle and not seed_shift:
+        ctx.notes += observations(ctx)
     if cov is not None:
         reach = {}
         data = cov.get_data()
@@ -902,6 +973,9 @@ def _run(ctx, only_oracle=False, n=None, seed_shift=0):
     hyp_lck = res.hyp.setdefault('LayerCentresKept g', [0, 0])
     hyp_st = res.hyp.setdefault('StableSurfaces g (hypothesis of names_lists_preserved)', [0, 0])
     hyp_sz = res.hyp.setdefault('SizesStable g (proved from WF: sizesStable_of_fits; evaluated as a cross-check)', [0, 0])
+    res.hyp.setdefault('Consistent g (tops / default surfaces as the library sets them)', [0, 0])
+    res.hyp.setdefault('SurfaceClear g (hypothesis of names_lists_preserved_clear)', [0, 0])
+    res.hyp.setdefault('StableSurfaces g = SurfaceClear g whenever WF g and Consistent g (surface_crossing_characterised, cross-check)', [0, 0])
     if n is None: n = ctx.n(70, 450)
     rcs = recipes(ctx, n) if not seed_shift else [gen_recipe(ctx.rng('search%d' % seed_shift), True, i) for i in range(n)]
     rng_mal = ctx.rng('malformed')
@@ -1039,6 +1113,9 @@ def process_replies(res, reqs, meta):
     hyp_lck = res.hyp['LayerCentresKept g']
     hyp_st = res.hyp['StableSurfaces g (hypothesis of names_lists_preserved)']
     hyp_sz = res.hyp['SizesStable g (proved from WF: sizesStable_of_fits; evaluated as a cross-check)']
+    hyp_co = res.hyp['Consistent g (tops / default surfaces as the library sets them)']
+    hyp_cl = res.hyp['SurfaceClear g (hypothesis of names_lists_preserved_clear)']
+    hyp_iff = res.hyp['StableSurfaces g = SurfaceClear g whenever WF g and Consistent g (surface_crossing_characterised, cross-check)']
     if reqs:
         out = core.run_driver('drv_c03', reqs)
         last_wf = None
@@ -1047,8 +1124,11 @@ def process_replies(res, reqs, meta):
             if kind == 'wf':
                 w = reply.split()
                 if w[0] != 'ok': raise RuntimeError('driver wf: ' + reply[:80])
-                last_wf = (w[1] == '1', w[2] == '1', w[3] == '1', w[4] == '1')
-                for h, ok in zip((hyp_wf, hyp_lck, hyp_st, hyp_sz), last_wf):
+                last_wf = (w[1] == '1', w[2] == '1', w[3] == '1', w[4] == '1', w[5] == '1', w[6] == '1')
+                if last_wf[0] and last_wf[4]:
+                    hyp_iff[1] += 1
+                    hyp_iff[0] += int(last_wf[2] == last_wf[5])
+                for h, ok in zip((hyp_wf, hyp_lck, hyp_st, hyp_sz, hyp_co, hyp_cl), last_wf):
                     h[1] += 1
                     h[0] += int(ok)
                 if real and not last_wf[0]: res.count('in quantifier but outside WF')
@@ -1117,6 +1197,9 @@ def replay(ctx, payload):
     c = payload.get('case') or {}
     if 'recipe' not in c:
         return False, 'replay file names what no longer checks: %s' % payload.get('broken')
+    if payload.get('kind') == 'observation':
+        note = [x for x in observations(ctx) if '[%s]' % c['recipe']['custom'] in x]
+        return False, 'observation (outside the hypotheses of the theorems, no verdict): ' + (note[0] if note else payload.get('what', ''))
     g = build(c['recipe'])
     V, info = oracle(g, ctx.tmp, 'r')
     key = payload.get('key')
